@@ -69,6 +69,11 @@ def judge(res, default_archs, isa_of_arch):
             bad("x-mark-differs-from-unknown", "line %d: flags %r, YAML Flags %s" % (r["num"], r["flags"], k["flags"]))
         elif r["flags"] != want:
             bad("flag-symbols-differ", "line %d: flags %r, YAML Flags %s" % (r["num"], r["flags"], k["flags"]))
+    # lines the MODEL FILE gives no throughput (facts of the request, read from the YAML text): they lack performance data
+    for r in t["rows"]:
+        if r["text"].strip() in set(f.get("must_x") or []) and "X" not in r["flags"]:
+            bad("line-without-throughput-data-not-marked", "line %d `%s`: the model file gives this form `throughput: ~`, but the report does not mark it X (flags %r)"
+                % (r["num"], r["text"].strip(), r["flags"]))
     res["blank_cp_nonzero"] = blank_cp_nonzero
     # ---- totals / missing-data warning
     want_totals = f["ignore_unknown"] or not unknown
